@@ -289,10 +289,16 @@ def run(ck, ctx):
             am = ctx.prog.module(mname)
             if am is None:
                 continue
+            consts = {t.id: st_.value for st_ in am.tree.body if isinstance(st_, ast.Assign) and len(st_.targets) == 1
+                      for t in st_.targets if isinstance(t, ast.Name) and isinstance(st_.value, (ast.List, ast.Tuple))}
             for n in ast.walk(am.tree):
-                if isinstance(n, ast.Call) and census.dotted(n.func).endswith("DateTime") and n.args and \
-                        isinstance(n.args[0], (ast.List, ast.Tuple)):
-                    fm = {e.value for e in n.args[0].elts if isinstance(e, ast.Constant)}
+                if not (isinstance(n, ast.Call) and census.dotted(n.func).endswith("DateTime")):
+                    continue
+                fa = n.args[0] if n.args else next((k.value for k in n.keywords if k.arg == "formats"), None)
+                if isinstance(fa, ast.Name) and fa.id in consts:
+                    fa = consts[fa.id]          # formats kept in a module-level constant
+                if isinstance(fa, (ast.List, ast.Tuple)):
+                    fm = {e.value for e in fa.elts if isinstance(e, ast.Constant)}
                     n_cli += 1
                     ck.ob("R15.4", f"CLI month option in {am.relpath} accepts the same formats", fm == f1,
                           (am.relpath, n.lineno, 0), mname.split(".")[-1], str(sorted(fm)))
